@@ -132,6 +132,8 @@ structure Group where
   tasks : List Nat := []
   spawned : List Nat := []         -- ghost: every task ever spawned into the group
   onCompleted : Option Nat := none
+  bodyErrs : List Exc := []        -- ghost: non-cancellation leaves the body handed to `__aexit__`
+  routed : List Nat := []          -- ghost: children whose exception `task_done` put into `_exceptions`
   deriving Repr, Inhabited
 
 inductive Handle where
